@@ -315,8 +315,13 @@ func genC04(r *RNG, tier string) []Case {
 				file, off := decodePos(pos)
 				// choose the fault of this attempt (the last attempt has none)
 				extra, failAt, mapperMode, cancelEnd, kind := "", -1, "", false, "none"
+				cancelOnFail := false
 				if a < attempts {
-					switch rr.Intn(7) {
+					switch rr.Intn(8) {
+					case 7:
+						kind = "handler-error-while-cancelling"
+						failAt = rr.Intn(len(full) + 1)
+						cancelOnFail = true
 					case 0:
 						kind = "handler-error"
 						failAt = rr.Intn(len(full) + 1)
@@ -369,7 +374,7 @@ func genC04(r *RNG, tier string) []Case {
 					return Outcome{OracleOK: false, Note: "driver: " + err.Error()}
 				}
 				f := fields(ans)
-				impl, _, _ := runParse(h, splitPackets(f["packets"]), file, off, failAt, mapperMode, cancelEnd)
+				impl, _, _ := runParse(h, splitPackets(f["packets"]), file, off, failAt, mapperMode, cancelEnd, cancelOnFail)
 				if normCrash(impl) != normCrash(f["model"]) {
 					out.CorrOK = false
 					out.Impl, out.Model = impl, f["model"]
